@@ -143,13 +143,16 @@ def _unit(args):
             for t, k in enumerate(ks):
                 want = row["prods"][t]
                 kc = "k<0" if k < 0 else "k=0" if k == 0 else "k<n" if k < n else "k=n" if k == n else "k>n"
-                for nm, f in (("multiply", lambda: g.multiply(pa, k)), ("P*k", lambda: pa * k), ("k*P", lambda: k * pa)):
+                entries = (("multiply", lambda: g.multiply(pa, k)), ("P*k", lambda: pa * k), ("k*P", lambda: k * pa))
+                if a:     # the key-agreement entry point: scalar and the coordinate pair of a public point (never infinity)
+                    entries += (("shared", lambda: drv.generate_shared_public_key(k, (pa[0], pa[1]), g)),)
+                for nm, f in entries:
                     got = drv.call(f, p)
                     cnt += 1
                     if got != want:
                         bad("C02|mul|%s|%s|P=%s|got=%s" % (nm, kc, "inf" if not a else "point", got if isinstance(got, str) else "wrong"),
                             "%s: curve p=%d k=%d P=%s%s expected %s got %s" % (nm, p, k, a, la, want, got),
-                            {"curve": ck, "op": "mul", "P": a, "k": k, "lift": la, "expected": want, "got": got})
+                            {"curve": ck, "op": "mul", "entry": nm, "P": a, "k": k, "lift": la, "expected": want, "got": got})
                 classes.add((ck, "mul", kc, "inf" if not a else "pt", _lc(la)))
         if idx == 2:   # the generator object itself (a Point subclass): negation, subtraction, fixed-base table
             for nm, kk, f, want in (("-G", "C02|neg|operand=generator_object", lambda: -g, negs[1]),
@@ -361,7 +364,7 @@ def _prod_ref_walk(args):
                 r = ref.add(R[a["i"]], ref.neg(R[a["j"]]))
             elif op == "neg":
                 r = ref.neg(R[a["i"]])
-            elif op == "mul":
+            elif op in ("mul", "shared"):
                 r = ref.mul(k, R[a["i"]])
             else:
                 r = ()
@@ -549,13 +552,15 @@ def _record_traces(ck, seed, count, nev, nregs=5):
             if e < nregs:
                 op, dst = rnd.choice(("load", "genraw", "genblind")), e + 1
             else:
-                op = rnd.choice(("load", "genraw", "genblind", "add", "add", "sub", "sub", "neg", "mul", "mul", "mul", "clear", "pfx", "add"))
+                op = rnd.choice(("load", "genraw", "genblind", "add", "add", "sub", "sub", "neg", "mul", "mul", "shared", "clear", "pfx", "add"))
                 if op == "clear" and rnd.random() < 0.7:
                     op = "add"
                 dst = rnd.randint(1, nregs)
             i, j, k, b = rnd.randint(1, nregs), rnd.randint(1, nregs), rk(), rnd.randrange(n)
             if rnd.random() < 0.15:
                 j = i
+            if op == "shared" and R[i][0] is None:
+                op = "mul"          # the other party's public point is never infinity
             rec = {"op": op, "i": i, "j": j, "dst": dst, "k": k, "b": b}
             try:
                 if op == "pfx":
@@ -582,6 +587,8 @@ def _record_traces(ck, seed, count, nev, nregs=5):
                     r = -R[i]
                 elif op == "mul":
                     r = R[i] * k if e % 2 else k * R[i]
+                elif op == "shared":
+                    r = drv.generate_shared_public_key(k, (R[i][0], R[i][1]), g0)
                 else:
                     r = g0.infinity()
                 pr = drv.proj(r, p)
@@ -745,13 +752,19 @@ def run(ctx):
         _production(ctx, behs, 4)
         # the same behaviours on user-constructed curves wider than 256 bits (generic pure-Python Generator)
         _production(ctx, behs[:6] if q else behs[:60], 4, WIDE_BACKENDS, B1_WIDE + 12345, B2_WIDE - 1, "random behaviours, wide curves", per=1 if q else 3)
-        # 4c. scalar classes, enumerated by TLC (MC_ECScalarClasses): b1 = 2^256, b2 = 2^300 on every curve
-        ctx.tlc("MC_ECScalarClasses", "MC_ECScalarClasses_p43", workers=2, timeout=600)
-        r = ctx.tlc("MC_ECScalarClasses", "MC_ECScalarClasses", workers=2, timeout=600)
-        cbehs = sorted((x["acts"] for x in r.records if x.get("k") == "beh"), key=lambda a: json.dumps(a, sort_keys=True))
-        if len(cbehs) < 100:
-            raise MachineryError("scalar-class enumeration printed %d behaviours" % len(cbehs))
-        _production(ctx, cbehs, 2, WIDE_BACKENDS + (BACKENDS[1:2] if q else BACKENDS), B1_WIDE, B2_WIDE, "scalar classes across 2^256", per=9)
+        # 4c. scalar classes, enumerated by TLC (MC_ECScalarClasses), two families:
+        #     "wide": b1 = 2^256, b2 = 2^300 on the wide curves and the production curves
+        #     "word": b1 = 2^32, b2 = 2^63 (edges of machine words) on every production backend
+        word_backends = [("secp256k1", ""), ("secp256r1", ""), ("secp256k1", "python")] if q else BACKENDS
+        for cfg, floor, backends, b1v, b2v, what, per in (
+                ("MC_ECScalarClasses", 100, WIDE_BACKENDS + (BACKENDS[1:2] if q else BACKENDS), B1_WIDE, B2_WIDE, "scalar classes across 2^256", 9),
+                ("MC_ECScalarClasses_word", 200, word_backends, B1_WORD, B2_WORD, "scalar classes at machine-word edges", 24)):
+            ctx.tlc("MC_ECScalarClasses", cfg + "_p43", workers=2, timeout=600)
+            r = ctx.tlc("MC_ECScalarClasses", cfg, workers=2, timeout=600)
+            cbehs = sorted((x["acts"] for x in r.records if x.get("k") == "beh"), key=lambda a: json.dumps(a, sort_keys=True))
+            if len(cbehs) < floor or not all(any(acts[-1]["a"]["op"] == op for acts in cbehs) for op in ("load", "genraw", "genblind", "mul", "shared")):
+                raise MachineryError("scalar-class enumeration %s printed %d behaviours / not every entry point" % (cfg, len(cbehs)))
+            _production(ctx, cbehs, 2, backends, b1v, b2v, what, per=per)
 
     # ---- 4d. several curves in one process (ECSession.tla)
     if _stage(ctx, "session"):
@@ -809,6 +822,7 @@ def run(ctx):
 
 
 B1_WIDE, B2_WIDE = 1 << 256, 1 << 300      # concretization of the symbols for MC_ECScalarClasses (and the wide curves)
+B1_WORD, B2_WORD = 1 << 32, 1 << 63        # ... for its family "word"
 BACKENDS = [("secp256k1", "python"), ("secp256k1", ""), ("secp256r1", "python"), ("secp256r1", ""), ("bls12_381_g1", "python")]
 WIDE_BACKENDS = [("secp384r1", "python"), ("secp521r1", "python")]
 
@@ -902,7 +916,9 @@ def replay(ctx, obj):
         P = drv.lift_point(g, d["P"], tuple(lifts[0])) if "P" in d else None
         Q = drv.lift_point(g, d["Q"], tuple(lifts[1])) if "Q" in d else None
         op, k = d["op"], d.get("k")
-        f = {"add": lambda: P + Q, "sub": lambda: P - Q, "neg": lambda: -P, "mul": lambda: g.multiply(P, k),
+        mul = {"P*k": lambda: P * k, "k*P": lambda: k * P,
+               "shared": lambda: drv.generate_shared_public_key(k, (P[0], P[1]), g)}.get(d.get("entry"), lambda: g.multiply(P, k))
+        f = {"add": lambda: P + Q, "sub": lambda: P - Q, "neg": lambda: -P, "mul": mul,
              "bgm": lambda: g * k, "raw_mul": lambda: g.raw_mul(k), "multiply|P=generator_object": lambda: g.multiply(g, k),
              "-G": lambda: -g, "G-G": lambda: g - g, "2G-G": lambda: g.add(g, g) - g}.get(op)
         if f is not None:
